@@ -41,6 +41,7 @@ Rec(a, u, k, v, v2) ==
 Expand(r) ==
   [a |-> r.a, u |-> r.u, k |-> r.k, v |-> r.v, v2 |-> r.v2, out |-> r.out,
    kv |-> r.S.kv, idx |-> r.S.idx.r,
+   deltas |-> Cardinality({t \in OpenTxS(r.S) : r.S.tx[t].d # NoWrites}),  \* len(overlay.txDeltas)
    views |-> [w \in ViewsS(r.S) |-> ViewOfS(r.S, w)],
    q |-> [w \in ViewsS(r.S) |-> [i \in 1..NT |-> ScanQueryS(Trees[i], r.S, w)]],
    ord |-> [i \in DOMAIN OQ |-> IF i \in OQok THEN WalkValsS(r.S, OQ[i]) ELSE <<>>]]
